@@ -29,9 +29,10 @@ Record xclass := mk_xclass {
   xk_text : option ftype;
   xk_xsi : list (name * nat);                     (* XmlContext.find_subclass(this class, qname) *)
   xk_nillable : bool;
-  xk_bases : list nat                             (* dataclass ancestors *)
+  xk_bases : list nat;                            (* dataclass ancestors *)
+  xk_nillables : list name                        (* element names whose var (or choice) is declared nillable *)
 }.
-Definition empty_class : xclass := mk_xclass (mk_xmeta [] false false) [] [] [] None None [] false [].
+Definition empty_class : xclass := mk_xclass (mk_xmeta [] false false) [] [] [] None None [] false [] [].
 
 (* ---------------------------------------------------------------- not retyped: schema simple type against field types *)
 Definition py_str : str := [115;116;114]%N.
@@ -199,6 +200,7 @@ Definition decl_closed (p : program) (k : xclass) (x : xdecl) : bool :=
    | [] => existsb (fun f => match xf_wild f with Some c => fns_allows c (ns_of (xd_name x)) | None => false end)
                    (xm_fields (xk_meta k))
    | _ => true end) &&
+
   forallb (fun tg =>
     match is_simple_type d, tg with
     | Some st, TPrim f => type_compat st f
@@ -215,7 +217,15 @@ Definition decl_closed (p : program) (k : xclass) (x : xdecl) : bool :=
     | None, TPrim _ => false
     end) ts.
 
-(* per pair: [content; attributes; attribute types; text type; closure; order_safe; order claimed by the property; cm well-formed] *)
+(* a nillable declaration is bound to a nillable var (or to a class that is itself nillable, or generically) *)
+Definition decl_nillable_bound (p : program) (k : xclass) (x : xdecl) : bool :=
+  let ts := targets_of k (xd_name x) in
+  negb (xd_nillable x) || existsb (name_eqb (xd_name x)) (xk_nillables k)
+  || match ts with [] => true | _ => false end
+  || existsb (fun tg => match tg with TClass c => xk_nillable (get_class p c) | _ => false end) ts.
+
+(* per pair: [content; attributes; attribute types; text type; closure; order_safe; order claimed by the property;
+   cm well-formed; nillable declarations bound to nillable fields] *)
 Definition pair_flags (p : program) (tc : nat * nat) : list bool :=
   let d := get_type (p_schema p) (fst tc) in
   let k := get_class p (snd tc) in
@@ -226,7 +236,8 @@ Definition pair_flags (p : program) (tc : nat * nat) : list bool :=
     forallb (decl_closed p k) (td_decls d);
     xorder_safe (tdef_cm d) (xk_meta k);
     xorder_claimed (tdef_cm d);
-    cm_wf (to_cm (tdef_cm d)) ].
+    cm_wf (to_cm (tdef_cm d));
+    forallb (decl_nillable_bound p k) (td_decls d) ].
 
 Definition pair_rejected (p : program) (tc : nat * nat) : option (list name) :=
   let d := get_type (p_schema p) (fst tc) in
@@ -237,6 +248,9 @@ Definition pair_rejected (p : program) (tc : nat * nat) : option (list name) :=
   end.
 
 Definition root_paired (p : program) : bool := let '(_, t, c) := p_root p in pair_mem p t c.
+
+Definition pair_unbound_nillables (p : program) (tc : nat * nat) : list name :=
+  map xd_name (filter (fun x => negb (decl_nillable_bound p (get_class p (snd tc)) x)) (td_decls (get_type (p_schema p) (fst tc)))).
 
 (* which decls of a pair are not closed (for the report) *)
 Definition pair_open_decls (p : program) (tc : nat * nat) : list name :=
